@@ -269,9 +269,14 @@ impl Number {
     }
 
     pub fn modulo(&self, rhs: &Number) -> Option<Number> {
+        let zero = Number::from(0);
         match self % rhs {
-            Some(num) => &(&num + rhs) % rhs,
-            None => None,
+            // the remainder has the sign of the dividend: move it to the side of the divisor.
+            // |num| < |rhs| with opposite signs, so the sum stays exact in every representation
+            Some(num) if (num < zero && *rhs > zero) || (num > zero && *rhs < zero) => {
+                Some(&num + rhs)
+            }
+            num => num,
         }
     }
 
@@ -814,12 +819,16 @@ impl Number {
     pub fn quotient(&self, rhs: &Self) -> Option<Number> {
         match self {
             Number::Fixnum(lhs) => match rhs {
-                Number::Fixnum(rhs) => Some((lhs / rhs).into()),
+                // i64::MIN / -1 is the only quotient of two fixnums that is not a fixnum
+                Number::Fixnum(rhs) => match lhs.checked_div(rhs) {
+                    Some(num) => Some(num.into()),
+                    None => Some((BigInt::from(*lhs) / rhs).into()),
+                },
                 Number::BigInt(rhs) => Some((BigInt::from(*lhs) / &**rhs).into()),
                 Number::Float(rhs) => lhs.to_f64().map(|lhs| (lhs / rhs).trunc().into()),
                 Number::Rational(rhs) => {
                     if rhs.is_integer() {
-                        Some((*lhs / rhs.to_i64().unwrap()).into())
+                        self.quotient(&Number::Fixnum(rhs.to_i64().unwrap()))
                     } else {
                         None
                     }
@@ -849,7 +858,8 @@ impl Number {
                 Number::BigInt(rhs) => Some((BigInt::from(lhs.to_i64().unwrap()) / &**rhs).into()),
                 Number::Rational(rhs) => {
                     if rhs.is_integer() {
-                        Some((lhs / rhs).into())
+                        // both parts fit an i32, so the i64 quotient cannot overflow
+                        Some((lhs.to_i64().unwrap() / rhs.to_i64().unwrap()).into())
                     } else {
                         None
                     }
@@ -877,9 +887,13 @@ impl Rem for &Number {
     fn rem(self, rhs: Self) -> Self::Output {
         match self {
             Number::Fixnum(lhs) => match rhs {
-                Number::Fixnum(rhs) => Some((lhs % rhs).into()),
+                // wrapping_rem: i64::MIN % -1 is 0, not an overflow
+                Number::Fixnum(rhs) => Some(lhs.wrapping_rem(*rhs).into()),
                 Number::BigInt(rhs) => Some((BigInt::from(*lhs) % &**rhs).into()),
                 Number::Float(rhs) => Some((*lhs as f64 % rhs).into()),
+                Number::Rational(rhs) if rhs.is_integer() => {
+                    self % &Number::Fixnum(rhs.to_i64().unwrap())
+                }
                 Number::Rational(rhs) => {
                     let result = Rational64::from_integer(*lhs)
                         % Rational64::from((*rhs.numer() as i64, *rhs.denom() as i64));
@@ -919,6 +933,9 @@ impl Rem for &Number {
                 Number::Fixnum(rhs) => Some((lhs.to_i64().unwrap() % *rhs).into()),
                 Number::Float(rhs) => lhs.to_f64().map(|lhs| (lhs % rhs).into()),
                 Number::BigInt(rhs) => Some((BigInt::from(lhs.to_i64().unwrap()) % &**rhs).into()),
+                Number::Rational(rhs) if lhs.is_integer() && rhs.is_integer() => {
+                    Some(Rational32::from_integer(lhs.numer().wrapping_rem(*rhs.numer())).into())
+                }
                 Number::Rational(rhs) => Some((lhs % rhs).into()),
             },
         }
